@@ -150,6 +150,31 @@ def impl(c):
             r2 = var.encode_raw(c["v2"])
             return [bytes(r1), bytes(r2), type(r1).__name__]
         return guarded(f)
+    if k == "enc_conc":      # several threads encode different values of one type at the same time
+        def f():
+            import sys, threading
+            vals = c["vals"]
+            signed, w = INT_TYPES[c["dt"]]
+            exp = [v.to_bytes(w // 8, "little", signed=signed) for v in vals]
+            bad = [0] * len(vals)
+            first = [None] * len(vals)
+            def worker(i):
+                v, e = vals[i], exp[i]
+                for _ in range(c["reps"]):
+                    r = bytes(_var(c["dt"]).encode_raw(v))
+                    if r != e:
+                        bad[i] += 1
+                        if first[i] is None: first[i] = r.hex()
+            old = sys.getswitchinterval()
+            try:
+                sys.setswitchinterval(1e-6)
+                ths = [threading.Thread(target=worker, args=(i,)) for i in range(len(vals))]
+                for t in ths: t.start()
+                for t in ths: t.join()
+            finally:
+                sys.setswitchinterval(old)
+            return [bad, [S(x) if x else None for x in first]]
+        return guarded(f)
     if k == "enc_float_big":  # a finite float outside the REAL32 range
         return guarded(lambda: bytes(var.encode_raw(float.fromhex(c["hex"]))))
     raise ValueError(k)
@@ -237,6 +262,10 @@ def oracle(c, o):
         if o[2] not in ("bytes", "bytearray"):
             return ("enc_result_not_bytes", f"type 0x{dt:X}: encode_raw returned a {o[2]}")
         return None
+    if k == "enc_conc":
+        if isinstance(o, Err) or any(o[0]):
+            return ("enc_wrong_under_concurrency", f"type 0x{dt:X}: threads encoding {c['vals']} at the same time got wrong bytes: {o!r}")
+        return None
     if k == "enc_float_big":
         if not isinstance(o, Err):
             return ("enc_out_of_range_accepted", f"REAL32 value {c['hex']} (finite, outside the binary32 range) encoded as {o!r}")
@@ -265,7 +294,7 @@ def nontrivial(c):
     if k == "enc_int": return c["v"] != 0
     if k in ("dec", "dec_enc"): return len(c["bs"]) >= 1
     if k in ("str_rt", "enc_str"): return len(c["s"]) >= 1
-    return k in ("enc_real", "enc_pair", "enc_float_big")
+    return k in ("enc_real", "enc_pair", "enc_float_big", "enc_conc")
 
 
 def boundary_values(signed, w):
@@ -390,6 +419,13 @@ def gen_cases(rng, tier):
                 cases.append(dict(kind="enc_int", dt=dt, v=v, model=(w == 8)))
             for u in range(1 << w):
                 cases.append(dict(kind="dec_enc", dt=dt, bs=list(u.to_bytes(w // 8, "little")), model=(w == 8)))
+    # the packers are shared objects (class-level table): concurrent encodes of one type must not interfere
+    for dt, (signed, w) in INT_TYPES.items():
+        if tier == "quick" and w in (8, 16, 32, 64) and rng.random() < 0.5:
+            continue
+        lo, hi = rng_of(signed, w)
+        cases.append(dict(kind="enc_conc", dt=dt, vals=[lo, hi, 1, rng.randint(lo, hi)][:3 if tier == "quick" else 4],
+                          reps={"quick": 1500, "thorough": 6000, "search": 4000}[tier], model=False))
     # configured limits (ODVariable.min / .max) are advisory: a third of the integer cases carry limits, mostly
     # such that the value lies outside them; model and oracle are those of the case without limits
     for c in cases:
